@@ -7,6 +7,7 @@ This module contains all the functions for converting Klong values to strings:
 - Array sorting utilities
 """
 import sys
+from functools import cmp_to_key
 
 from .backend import np
 from .types import (
@@ -117,6 +118,14 @@ def kg_argsort(a, backend, descending=False):
             return backend.argsort(a, descending=descending)
 
     # Slow path: nested arrays or strings need element-by-element comparison
-    def _e(x):
-        return (-np.inf, x) if is_empty(a[x]) else (np.max(a[x]), x) if is_list(a[x]) else (a[x], x)
-    return np.asarray(sorted(range(len(a)), key=_e, reverse=descending))
+    def _cmp(x, y):
+        # lists are compared pairwise and recursively: the first members that differ decide
+        if (is_list(x) or is_list(y)) and is_iterable(x) and is_iterable(y):
+            for p, q in zip(x, y):
+                c = _cmp(p, q)
+                if c != 0:
+                    return c
+            return len(x) - len(y)
+        return -1 if x < y else 1 if y < x else 0
+    key = cmp_to_key(lambda i, j: _cmp(a[i], a[j]) or i - j)
+    return np.asarray(sorted(range(len(a)), key=key, reverse=descending))
